@@ -193,6 +193,10 @@ class IntervalTier(textgrid_tier.TextgridTier):
             the modified version of the current tier
         """
         referenceTimestamps = referenceTier.timestamps
+        if len(referenceTimestamps) == 0:
+            raise errors.ArgumentError(
+                "The reference tier has no timestamps to align to"
+            )
 
         newEntries = []
         for start, stop, label in self.entries:
